@@ -365,6 +365,43 @@ func C01(run *core.Run) {
 		}(cps[lo:hi], w)
 	}
 	wg.Wait()
+	// a genuine signature over the hash of a NON-canonical serialisation (encoding/json's default escaping
+	// of < > & U+2028 U+2029, \u007f for DEL, a space after separators, the fields as an object) is not authentic
+	{
+		n := 0
+		for _, content := range []string{"a<b", "x>y&z", "line\u2028sep\u2029", "del\x7f", "plain"} {
+			tags := []mocrelay.Tag{{"t", "<tag>"}}
+			forms := map[string]func(pub string) []byte{
+				"json.Marshal escaping": func(pub string) []byte {
+					b, _ := json.Marshal([]any{0, pub, int64(1700000000), int64(1), tags, content})
+					return b
+				},
+				"spaces after separators": func(pub string) []byte {
+					return bytes.ReplaceAll(tbl.canonical(pub, 1700000000, 1, tags, content), []byte(","), []byte(", "))
+				},
+				"upper-case unicode escapes": func(pub string) []byte {
+					b, _ := json.Marshal([]any{0, pub, int64(1700000000), int64(1), tags, content})
+					return bytes.ReplaceAll(bytes.ReplaceAll(b, []byte("\\u003c"), []byte("\\u003C")), []byte("\\u003e"), []byte("\\u003E"))
+				},
+			}
+			for name, ser := range forms {
+				canon := tbl.canonical(conc.SignRaw(authors[0], 1700000000, 1, tags, content).Pubkey, 1700000000, 1, tags, content)
+				ev := conc.SignOver(authors[0], 1700000000, 1, tags, content, ser)
+				if bytes.Equal(ser(ev.Pubkey), canon) {
+					continue // for this content the form coincides with the canonical one
+				}
+				n++
+				run.Add("tampers_checked", 1)
+				if ok, _ := ev.Verify(); ok {
+					run.Violate("verify-accepts-noncanonical-id:"+name, fmt.Sprintf("id %s is the hash of a non-canonical serialisation (%s) of content %q, genuinely signed: reported authentic", ev.ID, name, content),
+						map[string]any{"event": ev, "form": name})
+				}
+			}
+		}
+		if n == 0 {
+			run.Problem("no non-canonical form differed from the canonical one")
+		}
+	}
 	// an id whose trailing zero bytes are cut off (or that is padded with zero bytes) is another id
 	{
 		found := 0
@@ -391,6 +428,26 @@ func C01(run *core.Run) {
 		}
 		if found == 0 {
 			run.Problem("no event id with a zero tail found in 20000 signatures")
+		}
+		// the same for the signature (its two halves are two 32-byte numbers)
+		foundSig := 0
+		for ts := int64(1800000000); ts < 1800000000+20000 && foundSig < 3; ts++ {
+			ev := conc.SignRaw(authors[int(ts)%len(authors)], ts, 1, nil, "zero tail sig")
+			if !strings.HasSuffix(ev.Sig, "00") {
+				continue
+			}
+			foundSig++
+			for _, alt := range []string{ev.Sig[:126], ev.Sig + "00", "00" + ev.Sig[:126]} {
+				t := *ev
+				t.Sig = alt
+				run.Add("tampers_checked", 1)
+				if ok, _ := t.Verify(); ok {
+					run.Violate("verify-accepts-tampered:sig-trunc", fmt.Sprintf("sig %s altered to %s is still reported authentic", ev.Sig, alt), map[string]any{"original": ev, "tampered": t})
+				}
+			}
+		}
+		if foundSig == 0 {
+			run.Problem("no signature with a zero tail found in 20000 signatures")
 		}
 	}
 	// verification is a pure function of the event: many sessions verifying large events at the same
